@@ -385,7 +385,7 @@ impl Check for NftConsecutive {
             };
             let exp = m.apply(s);
             if kind != "advance" {
-                st.hit(if got { "tx.ok" } else { "tx.refused" });
+                st.tx(kind, got);
             }
             if got != exp {
                 let check = match (got, kind) {
